@@ -380,8 +380,10 @@ def parse_case(rng):
         e.hint_num(b)
     e.ops += [f"parse p {hx(text)}", "dump p", "type p", "print p compact", "reparse p compact r0", "dump r0",
               "reparse p formatted r1", "dump r1", "dup p d0", "dump d0"]
+    if not has_dup_keys(t, cs=True):
+        e.ops += ["cmp p r0 1", "cmp d0 p 1", "cmp p d0 1"]     # keys may still differ in case only
     if not has_dup_keys(t):
-        e.ops += ["cmp p r0 1", "cmp d0 p 1"]
+        e.ops += ["cmp p r0 0", "cmp d0 p 0"]
     if t[0] == "o" and t[1]:
         k = rng.choice(t[1])[0]
         e.ops += [f"get p {hx(k)}", f"has p {hx(k.swapcase())}", f"get p {hx(k.swapcase())}", "iter p - -", f"iter p {rng.randint(0, 3)} -"]
@@ -392,13 +394,51 @@ def parse_case(rng):
     return e.case({"kind": "parse", "expect": dump_tree(t)})
 
 
-def has_dup_keys(t):
+def has_dup_keys(t, cs=False):
+    """some object holds two members whose keys the lookup identifies: equal up to ASCII case (cs=False, the access
+    layer and case-insensitive compare) or exactly equal (cs=True, case-sensitive compare)"""
     if t[0] == "a":
-        return any(has_dup_keys(x) for x in t[1])
+        return any(has_dup_keys(x, cs) for x in t[1])
     if t[0] == "o":
-        ks = [k.lower() for k, _ in t[1]]
-        return len(set(ks)) != len(ks) or any(has_dup_keys(x) for _, x in t[1])
+        ks = [(k if cs else k.lower()) for k, _ in t[1]]
+        return len(set(ks)) != len(ks) or any(has_dup_keys(x, cs) for _, x in t[1])
     return False
+
+
+def casekeys_case(rng):
+    """objects PARSED from text whose member names differ only in letter case ("a"/"A", "key"/"KEY"/"Key"; the API
+    refuses to build them) with different values: compared under both flags and in both orders with their duplicate,
+    with their re-parsed serialisation and with one-leaf variants"""
+    e = Emit()
+    base = rng.choice([b"a", b"key", b"Ab", b"x1y", b"\xc3\xa9k", b"k"])
+    forms = list(dict.fromkeys([base, base.upper(), base.lower(), base.capitalize(), base.swapcase()]))
+    rng.shuffle(forms)
+    forms = forms[:rng.randint(2, len(forms))]
+    ms = [(k, rng.choice([("n", d2b(float(i + 1))), ("s", b"v%d" % i), ("b", i % 2 == 0), ("a", [("n", d2b(float(i)))]),
+                          ("o", [(b"in", ("n", d2b(float(i))))])])) for i, k in enumerate(forms)]
+    if rng.random() < 0.5:
+        ms.insert(rng.randrange(len(ms) + 1), (b"other", gen_scalar(rng)))
+    t = ("o", ms)
+    r = rng.random()
+    if r < 0.3:
+        t = ("a", [t, ("z",)])
+    elif r < 0.5:
+        t = ("o", [(b"outer", t), (b"OUTER", ("n", d2b(0.0)))])
+    u = _variant(rng, t)
+    ta, tb = py_text(rng, t), py_text(rng, u)
+    for x in (ta, tb):
+        e.hint_text(x)
+    for b in tree_nums(t, []) + tree_nums(u, []):
+        e.hint_num(b)
+    e.ops += [f"parse p {hx(ta)}", "dump p", "dup p d", "dump d", "reparse p compact r0", "dump r0", "reparse p formatted r1", "dump r1",
+              f"parse q {hx(tb)}", "dump q"]
+    for x, y in (("d", "p"), ("p", "d"), ("r0", "p"), ("p", "r1"), ("p", "q"), ("q", "p"), ("d", "q")):
+        e.ops += [f"cmp {x} {y} 1"]
+    # under the case-insensitive flag identical copies of such objects are the known finding C11-dupkey-compare
+    # (witness in corpus/C11); only the variant pairs are compared here (model agreement)
+    if u != t:
+        e.ops += ["cmp p q 0", "cmp q p 0"]
+    return e.case({"kind": "casekeys"})
 
 
 def malformed_case(rng):
